@@ -118,7 +118,23 @@ def O(op, **kw):
 TEXTS = ["x", "", "ab,cd", "hello", "1", "42", "a b", "7,8,9", "q,"]
 
 
+def render_h(fam, ops):
+    """families whose name ends in @255 use file number 255 (the largest there is) where the history says 2"""
+    t = render(ops)
+    if fam.endswith("@255"):
+        t = t.replace("#2", "#255").replace("EOF(2)", "EOF(255)")
+    return t
+
+
 def gen(tier, rng):
+    hs = _gen(tier, rng)
+    extra = [(fam + "@255", ops, si) for fam, ops, si in hs if fam in ("readback", "append", "readnum", "protocol1", "random-reopen")
+             and any(o.get("n") == 2 for o in ops)]
+    rng.shuffle(extra)
+    return hs + extra[:60]
+
+
+def _gen(tier, rng):
     hs = []
     # (a) write, close, read back in every mix of LINE INPUT / INPUT, EOF after each read, one read past the end
     for k in (1, 2, 3):
@@ -161,6 +177,8 @@ def gen(tier, rng):
             for m in ("input", "output", "append"):
                 alpha.append(O("open", n=n, name=f, mode=m))
         alpha += [O("print", n=n, text=S("p")), O("lineinput", n=n), O("input", n=n), O("eof", n=n), O("close", n=n)]
+        # record operations on handles that are closed or open as text files: file errors
+        alpha += [O("get", n=n, r=1), O("put", n=n, r=1), O("field", n=n, ws=[2], g=0)]
     alpha += [O("closeall"), O("close2", n=1, m=2), O("close2", n=2, m=1), O("kill", name="A"), O("kill", name="B"), O("name", name="A", to="B"), O("name", name="B", to="C")]
     pre = [O("open", n=3, name="A", mode="output"), O("print", n=3, text=S("l1")), O("print", n=3, text=S("l2,x")), O("close", n=3)]
     for a in alpha:
@@ -362,7 +380,7 @@ def run(tier, replay):
         hs = gen(tier, rng)
     fsroot = os.path.join(d, "fs")
     shutil.rmtree(fsroot, ignore_errors=True)
-    reqs = [{"op": "run", "text": render(ops), "stdin": stdin, "budget": 200000, "dir": os.path.join(fsroot, "c%d" % i),
+    reqs = [{"op": "run", "text": render_h(fam, ops), "stdin": stdin, "budget": 200000, "dir": os.path.join(fsroot, "c%d" % i),
              "files": {fname(o["name"]): "".join(chr(c) for c in o["text"]) for o in ops if o["op"] == "given"}}
             for i, (fam, ops, stdin) in enumerate(hs)]
     resps = pool.map(reqs, timeout=60)
